@@ -17,8 +17,8 @@ Definition baseline : list (string * Z) := [
   ("server/address_space/reference_type.rs", 0);
   ("server/address_space/references.rs", 1);
   ("server/address_space/relative_path.rs", 2);
-  ("server/address_space/variable.rs", 2);
-  ("server/address_space/variable_type.rs", 1);
+  ("server/address_space/variable.rs", 1);
+  ("server/address_space/variable_type.rs", 0);
   ("server/address_space/view.rs", 0);
   ("server/events/audit/cancel_event.rs", 0);
   ("server/events/audit/certificate_events.rs", 0);
@@ -30,7 +30,7 @@ Definition baseline : list (string * Z) := [
   ("server/events/event.rs", 28);
   ("server/events/event_filter.rs", 11);
   ("server/events/mod.rs", 0);
-  ("server/events/operator.rs", 54);
+  ("server/events/operator.rs", 49);
   ("server/services/attribute.rs", 8);
   ("server/services/audit.rs", 0);
   ("server/services/discovery.rs", 0);
@@ -42,9 +42,10 @@ Definition baseline : list (string * Z) := [
   ("server/services/query.rs", 0);
   ("server/services/session.rs", 1);
   ("server/services/subscription.rs", 4);
+  ("server/services/verif_asvc.rs", 0);
   ("server/services/view.rs", 6);
   ("server/subscriptions/mod.rs", 0);
   ("server/subscriptions/monitored_item.rs", 2);
-  ("server/subscriptions/subscription.rs", 9);
+  ("server/subscriptions/subscription.rs", 8);
   ("server/subscriptions/subscriptions.rs", 3)
 ].
